@@ -94,6 +94,7 @@ func mapHas(m any, k any) bool { return true }
 func mapLen(m any) int { return 0 }
 func uf(name string, args ...any) int { return 0 }
 func ufb(name string, args ...any) bool { return true }
+func uf8(name string, args ...any) byte { return 0 }
 func ufbytes(name string, i int, args ...any) byte { return 0 }
 func strOfBytes(b []byte) string { return "" }
 func result[T any](i int) T { var z T; return z }
